@@ -39,8 +39,17 @@ impl Model {
         let mut acc = 0;
         let mut x = 0;
 
-        while acc + self.frequencies[x] <= freq {
-            acc += self.frequencies[x];
+        // The frequency is < the total frequency unless the input is invalid.
+        loop {
+            let f = self.frequencies.get(x).copied().ok_or_else(|| {
+                io::Error::new(io::ErrorKind::InvalidData, "invalid symbol frequency")
+            })?;
+
+            if acc + f > freq {
+                break;
+            }
+
+            acc += f;
             x += 1;
         }
 
